@@ -59,8 +59,8 @@ func newMachine(arch string) *machine {
 		add("low", dram.DRAM_BASE_RISCV-ramSize-0x1000, ramSize)
 	case "loong64":
 		m.cpu, m.xlen = wla.NewCPU(), 64
-		add("memory", dram.DRAM_BASE_LA64, ramSize)  // the standard base
-		add("low", 1<<31-ramSize, 2*ramSize)         // straddles 2^31
+		add("memory", dram.DRAM_BASE_LA64, ramSize) // the standard base
+		add("low", 1<<31-ramSize, 2*ramSize)        // straddles 2^31
 	}
 	// fill: byte at address a = pattern(a), every byte has bit 7 set in half of the cells so that
 	// sign extension is visible
